@@ -18,6 +18,8 @@ against CPython imports of the generated packages while building).
 Containers come in boundary shapes too (classes with an empty body or private members only, modules
 that only import, packages with an empty ``__init__``) and are then the only public route to an
 edited object.
+Attributes are bound several times (class level, ``__init__``, module level; conditionally or not);
+the model records the value of the binding that wins the documented tie-break.
 Oracle: a *public-surface model* computed from the generator's structure (never from
 ``is_public``) and the packages the session loads gives the public paths of every object;
 incompatible edits on an object with >= 1 public path must yield a breakage of the expected kind on
@@ -54,7 +56,12 @@ RULE = ("structured package pk (modules pk, pk.core, pk._impl, pk.sub, pk.sub.mo
         "brought in by wildcard or one by one; containers of boundary shape - classes with an empty body (`pass`, `...`, docstring "
         "only) or with private members only that inherit from a private base in a private module (re-exported or not), a class of "
         "the package or of a sibling package, a module that only imports (with / without __all__), packages with an empty "
-        "__init__ (pk.sub, the sibling package, the root) - as the only public route to an edited object; optional "
+        "__init__ (pk.sub, the sibling package, the root) - as the only public route to an edited object; attributes (module level, "
+        "class level, instance attributes set in an __init__ placed anywhere among the members) bound 1-4 times: plainly, as a bare "
+        "annotation, annotated or not, under if / else / elif / if-else / try / except / try-except / try-else / finally / for / while / "
+        "with and nestings, with literals or the __init__ parameter; `change_value` edits the binding Griffe documents to keep "
+        "(later wins, but a re-assignment directly inside an if/else branch or an except handler does not displace a value), "
+        "`change_losing_binding` (compatible) edits one that loses; optional "
         "dangling or cyclic re-export injected in both versions x loading session applied to both versions: the way `griffe check` "
         "loads (load pk, resolve aliases with external=None, which pulls in _pk afterwards when an exported alias or a wildcard leads "
         "there) or a loader session over a drawn subset/order of the packages with consumer reads of the whole tree and alias "
@@ -82,9 +89,18 @@ REQUIRED_COUNTERS = ["pairs_diffed", "identical_pairs_silent", "compatible_scrip
                      "composed_all_in_non_root_module_edits_reported", "composed_all_from_shared_source_edits_reported",
                      "cli_cases_with_composed_all", "edits_public_only_through_empty_body_class_reported",
                      "edits_public_only_through_class_with_private_members_only_reported",
-                     "edits_public_only_through_import_only_module_reported", "cli_cases_with_empty_body_class", "pairs_with_empty_init"]
+                     "edits_public_only_through_import_only_module_reported", "cli_cases_with_empty_body_class", "pairs_with_empty_init",
+                     "value_edits_where_conditional_rebinding_loses_reported",
+                     "value_edits_on_instance_attribute_with_conditional_rebinding_reported",
+                     "such_edits_with_documented_value_bound_at_class_level", "such_edits_with_documented_value_bound_in_init",
+                     "value_edits_on_module_attribute_with_conditional_rebinding_reported", "pairs_with_losing_binding_edit_silent",
+                     "cli_cases_with_conditionally_rebound_attribute"]
 EXHAUSTIVE = {"quick": False, "thorough": False}
-ASSUMPTIONS = ["attribute values and parameter lists are simple literals so that C03/C10 findings cannot surface here",
+ASSUMPTIONS = ["attribute values and parameter lists are simple literals / names so that C03/C10 findings cannot surface here",
+               "the value documented for an attribute bound several times follows the tie-break of C01's statement (later wins, a "
+               "conditional re-assignment does not displace an existing value, a bare annotation keeps it); function signatures are "
+               "not modelled: when a path comes to reach another function of the same name (override gone), reports on it are neither "
+               "demanded nor forbidden; the __init__ carrying the instance attributes is not removed / re-kinded by edits",
                "a module with a wildcard import declares a non-empty __all__ (whether names only a wildcard brings in are public without "
                "__all__ is not settled by the documented rules); wildcard imports come from a sibling package's __init__ or from the module "
                "whose __all__ the importing module composes its own from, and are the first statements of the module (names are unique, so "
@@ -102,6 +118,90 @@ def new_obj(name, kind, **kw):  # noqa: ANN001, ANN003, ANN201
     o = {"name": name, "kind": kind, "params": [], "bases": [], "members": [], "value": "0", "doc": None}
     o.update(kw)
     return o
+
+
+# -- attribute bindings --------------------------------------------------------------------------
+# An attribute may be bound several times: at module / class level ("body") and, for class members, as `self.name = ...` in
+# __init__ ("init"); plainly or inside if / else / try-except / loops / with. Griffe documents one value per name; its
+# tie-break (C01's statement): later bindings win, except that a re-assignment whose statement sits directly in an if / elif /
+# else branch or in an except handler does not displace a value the name already has. A bare annotation binds the name
+# without a value and keeps a value it already has.
+COND_CTX = {"if", "else", "elif", "except", "for_if"}  # the assignment's direct parent is an If / ExceptHandler
+WIN_CTX = {"plain", "try", "tryelse", "finally", "for", "while", "with", "if_with"}  # direct parent: body, Try, For, While, With
+TWO_CTX = {"ifelse": (True, True), "tryexcept": (False, True)}  # two assignments: (first is conditional, second is conditional)
+UNSET = "<unset>"
+
+
+def private_name(name: str) -> bool:
+    return name.startswith("_") and not (name.startswith("__") and name.endswith("__"))
+
+
+def binding_atoms(attr: dict, cls: dict | None) -> list[tuple[dict, str, bool]]:
+    """The assignments to ``attr`` in source order: (binding, key of its value, conditional). The class body is read in member
+    order; the `self.x = ...` statements of all attributes sit in the member `__init__`, wherever that is."""
+    binds = attr.get("binds")
+    if binds is None:
+        return [({"site": "body", "ctx": "plain", "value": attr["value"]}, "value", False)]
+    seq = []
+    holders = cls["members"] if cls else [attr]
+    for mem in holders:
+        site = "body" if mem is attr else "init" if (mem["name"] == "__init__" and mem["kind"] == "func") else None
+        for b in binds if site else ():
+            if b["site"] != site:
+                continue
+            if b["ctx"] in TWO_CTX:
+                seq += [(b, "value", TWO_CTX[b["ctx"]][0]), (b, "value2", TWO_CTX[b["ctx"]][1])]
+            else:
+                seq.append((b, "value", b["ctx"] in COND_CTX))
+    return seq
+
+
+def winning_atom(attr: dict, cls: dict | None) -> tuple[dict, str] | None:
+    """The assignment whose value is documented, by the tie-break above (None: no assignment, or a bare annotation only)."""
+    bound, winner = False, None
+    for b, key, cond in binding_atoms(attr, cls):
+        if bound and cond:
+            continue
+        if b["ctx"] == "bare":
+            bound = True  # keeps the value the name has, if any
+            continue
+        bound, winner = True, (b, key)
+    return winner
+
+
+def attr_exists(attr: dict, cls: dict | None) -> bool:
+    return bool(binding_atoms(attr, cls))
+
+
+def doc_value(attr: dict, cls: dict | None) -> str:
+    w = winning_atom(attr, cls)
+    return UNSET if w is None else w[0][w[1]]
+
+
+def render_binding(b: dict, target: str, indent: str, cond: str) -> str:
+    lhs = target + (": int" if b.get("ann") else "")
+    a1, a2 = f"{lhs} = {b.get('value')}\n", f"{lhs} = {b.get('value2')}\n"
+    i1, i2 = indent + "    ", indent + "        "
+    ctx = b["ctx"]
+    shapes = {
+        "plain": f"{indent}{a1}",
+        "bare": f"{indent}{target}: int\n",
+        "if": f"{indent}if {cond}:\n{i1}{a1}",
+        "else": f"{indent}if not {cond}:\n{i1}pass\n{indent}else:\n{i1}{a1}",
+        "elif": f"{indent}if not {cond}:\n{i1}pass\n{indent}elif {cond}:\n{i1}{a1}",
+        "ifelse": f"{indent}if {cond}:\n{i1}{a1}{indent}else:\n{i1}{a2}",
+        "except": f"{indent}try:\n{i1}raise ValueError\n{indent}except Exception:\n{i1}{a1}",
+        "try": f"{indent}try:\n{i1}{a1}{indent}except Exception:\n{i1}pass\n",
+        "tryexcept": f"{indent}try:\n{i1}{a1}{indent}except Exception:\n{i1}{a2}",
+        "tryelse": f"{indent}try:\n{i1}pass\n{indent}except Exception:\n{i1}pass\n{indent}else:\n{i1}{a1}",
+        "finally": f"{indent}try:\n{i1}pass\n{indent}finally:\n{i1}{a1}",
+        "for": f"{indent}for _ in (0,):\n{i1}{a1}",
+        "while": f"{indent}while True:\n{i1}{a1}{i1}break\n",
+        "with": f"{indent}with memoryview(b''):\n{i1}{a1}",
+        "if_with": f"{indent}if {cond}:\n{i1}with memoryview(b''):\n{i2}{a1}",
+        "for_if": f"{indent}for _ in (0,):\n{i1}if {cond}:\n{i2}{a1}",
+    }
+    return shapes[ctx]
 
 
 def top_of(mod: str) -> str:
@@ -137,12 +237,14 @@ def import_reaches(mods: dict, start: str, goal: str) -> bool:
     return False
 
 
-def gen_model(rng: random.Random, siblings: bool | None = None, compose: bool | None = None, shapes: bool | None = None) -> dict:  # noqa: C901, PLR0912, PLR0915
+def gen_model(rng: random.Random, siblings: bool | None = None, compose: bool | None = None, shapes: bool | None = None,  # noqa: C901, PLR0912, PLR0915
+              attrs: bool | None = None) -> dict:
     """``siblings``: None = drawn, True = the private sibling top-level package is present and linked by an exported
     re-export, False = single-package model. ``compose``: None = drawn, True = some modules build their ``__all__`` from
     other modules' ``__all__``. ``shapes``: None = drawn, True = boundary shapes of containers occur: classes with an empty
     body (``pass``, ``...``, docstring only) or with private members only that offer what they inherit, a module that only
-    imports, packages with an empty ``__init__``."""
+    imports, packages with an empty ``__init__``. ``attrs``: None = drawn, True = attributes are bound several times (class
+    level, __init__, module level; plainly and under if / else / try-except / loops / with; annotated or not)."""
     mods: dict[str, dict] = {}
     counter = [0]
 
@@ -152,6 +254,32 @@ def gen_model(rng: random.Random, siblings: bool | None = None, compose: bool | 
 
     shapes_on = (rng.random() < 0.6) if shapes is None else shapes
 
+    attrs_on = (rng.random() < 0.6) if attrs is None else attrs
+
+    def gen_attr(name: str, in_class: bool) -> dict:
+        """An attribute: bound once, or (attrs_on) several times - at class / module level and in __init__, plainly and
+        under conditions, annotated or not, with literal values or the __init__ parameter named after it."""
+        o = new_obj(name, "attr", value=str(rng.randint(0, 9)))
+        if not attrs_on or rng.random() < 0.3:
+            return o
+        binds = []
+        for k in range(rng.choice([1, 2, 2, 3, 3, 4])):
+            site = rng.choice(["body", "init", "init"]) if in_class else "body"
+            if k == 0:
+                ctx = rng.choice(["plain"] * 6 + ["bare", "if", "try", "ifelse"])
+            else:
+                ctx = rng.choice(["if", "if", "else", "elif", "except", "except", "ifelse", "tryexcept", "for_if",
+                                  "plain", "try", "tryelse", "finally", "for", "while", "with", "if_with", "bare", "bare"])
+            if ctx == "bare" and (site == "init" or (k == 0 and not in_class)):
+                ctx = "plain"  # (a module-level name that is only declared cannot be imported by the other modules)
+            b = {"site": site, "ctx": ctx, "ann": ctx != "bare" and rng.random() < 0.25}
+            if ctx != "bare":
+                for key in ("value", "value2") if ctx in TWO_CTX else ("value",):
+                    b[key] = f"p_{name}" if site == "init" and rng.random() < 0.4 else str(rng.randint(0, 99))
+            binds.append(b)
+        o["binds"] = binds
+        return o
+
     def gen_class(name: str, bases: list[str], plain: bool = False) -> dict:
         members = []
         shape = rng.random() if shapes_on and not plain else 1.0
@@ -160,10 +288,15 @@ def gen_model(rng: random.Random, siblings: bool | None = None, compose: bool | 
             return new_obj(name, "class", bases=list(bases), members=[], body=rng.choice(["pass", "ellipsis", "doc"]))
         for _ in range(rng.randint(1, 3)):
             mname = fresh(rng.choice(["m", "m", "_pm"]) if not (bases and shape < 0.42) else "_pm")  # or: private members only
-            if rng.random() < 0.7:
+            if rng.random() < (0.5 if attrs_on else 0.7):
                 members.append(new_obj(mname, "func", params=[("self", None), ("x", None)][: rng.randint(1, 2)]))
             else:
-                members.append(new_obj(mname, "attr", value=str(rng.randint(0, 9))))
+                members.append(gen_attr(mname, in_class=True))
+        inits = [m for m in members if any(b["site"] == "init" for b in m.get("binds") or ())]
+        if inits:
+            # __init__ takes one optional parameter per instance attribute; it sits anywhere among the members
+            init = new_obj("__init__", "func", params=[("self", None)] + [(f"p_{m['name']}", "None") for m in inits])
+            members.insert(rng.randint(0, len(members)), init)
         return new_obj(name, "class", bases=list(bases), members=members)
 
     def gen_objs(n: int, private_share: float) -> list[dict]:
@@ -179,7 +312,7 @@ def gen_model(rng: random.Random, siblings: bool | None = None, compose: bool | 
             elif k == "class":
                 objs.append(gen_class(name, []))
             else:
-                objs.append(new_obj(name, "attr", value=str(rng.randint(0, 9))))
+                objs.append(gen_attr(name, in_class=False))
         return objs
 
     core = gen_objs(rng.randint(3, 6), 0.25)
@@ -278,6 +411,7 @@ def gen_model(rng: random.Random, siblings: bool | None = None, compose: bool | 
             kid = gen_class(fresh("K"), bases)
             if rng.random() < 0.3 and sc["members"] and kid["members"]:
                 over = copy.deepcopy(rng.choice(sc["members"]))  # overrides an inherited member: the base's one is shadowed
+                over.pop("binds", None)  # (bound once, at class level)
                 kid["members"].append(over)
             hm["objs"].append(kid)
             if hm["all"] is not None and host != "pk" and rng.random() < 0.85:
@@ -378,15 +512,24 @@ def gen_model(rng: random.Random, siblings: bool | None = None, compose: bool | 
     return {"mods": mods, "extra": extra}
 
 
-def render_obj(o: dict, indent: str = "") -> str:
+def render_obj(o: dict, indent: str = "", cls: dict | None = None) -> str:
     if o["kind"] == "func":
         ps = ", ".join(n if d is None else f"{n}={d}" for n, d in o["params"])
-        return f"{indent}def {o['name']}({ps}): ...\n"
+        body = ""
+        if cls is not None and o["name"] == "__init__":
+            # the instance attributes of the class: `self.x = ...`, in member order
+            for mem in cls["members"]:
+                for b in (mem.get("binds") or ()) if mem["kind"] == "attr" else ():
+                    if b["site"] == "init":
+                        body += render_binding(b, f"self.{mem['name']}", indent + "    ", f"p_{mem['name']} is not None")
+        return f"{indent}def {o['name']}({ps}):" + (f"\n{body}" if body else " ...\n")
     if o["kind"] == "attr":
-        return f"{indent}{o['name']} = {o['value']}\n"
+        if o.get("binds") is None:
+            return f"{indent}{o['name']} = {o['value']}\n"
+        return "".join(render_binding(b, o["name"], indent, "__debug__") for b in o["binds"] if b["site"] == "body")
     head = f"{indent}class {o['name']}" + (f"({', '.join(o['bases'])})" if o["bases"] else "") + ":\n"
     empty = {"pass": "pass", "ellipsis": "...", "doc": '"""Everything is inherited."""'}[o.get("body") or "pass"]
-    body = "".join(render_obj(m, indent + "    ") for m in o["members"]) or f"{indent}    {empty}\n"
+    body = "".join(render_obj(m, indent + "    ", o) for m in o["members"]) or f"{indent}    {empty}\n"
     return head + body
 
 
@@ -576,7 +719,7 @@ def boundary_shapes(model: dict, loaded: set[str] | None = None) -> dict[str, li
                     out["empty_class"] += ps
                     if ps:
                         out["bodies"].append(o.get("body") or "pass")
-                elif all(x["name"].startswith("_") for x in o["members"]):
+                elif all(private_name(x["name"]) for x in o["members"]):
                     out["private_only_class"] += ps
         bare = not m["objs"] and not m.get("wild") and not m.get("compose")
         if bare and m["imports"] and module_public(model, mod):
@@ -679,7 +822,7 @@ def public_paths(model: dict, loaded: set[str] | None = None, unknown: dict | No
                     if mem["name"] in seen_names:
                         continue
                     seen_names.add(mem["name"])
-                    if not mem["name"].startswith("_"):
+                    if not private_name(mem["name"]):
                         out[canon] |= {f"{p}.{mem['name']}" for p in cpaths}
                 for b in cls["bases"]:
                     r = class_lookup(model, cmod, b, loaded)
@@ -776,7 +919,37 @@ def touch(collection) -> int:  # noqa: ANN001
 
 
 # -- edits ---------------------------------------------------------------------------------------
-COMPAT = ["add_object", "add_kwarg", "change_private", "add_base", "reorder", "add_module"]
+COMPAT = ["add_object", "add_kwarg", "change_private", "add_base", "reorder", "add_module", "change_losing_binding"]
+
+
+def bump_value(o: dict, cls: dict | None, delta: int) -> bool:
+    """Change the value Griffe documents for the attribute: the one of the binding that wins the tie-break."""
+    if o.get("binds") is None:
+        o["value"] = str(int(o["value"]) + delta)
+        return True
+    w = winning_atom(o, cls)
+    if w is None:
+        return False
+    b, key = w
+    b[key] = str(int(b[key]) + delta) if b[key].isdigit() else str(1000 + delta)  # (a parameter name becomes a literal)
+    return True
+
+
+def attribute_info(model: dict) -> dict[str, dict]:
+    """canonical path -> how the attribute is bound, for attributes bound more than once."""
+    out = {}
+    for mod, cls, o in all_objects(model):
+        if o["kind"] == "attr" and o.get("binds") is not None:
+            atoms = binding_atoms(o, cls)
+            w = winning_atom(o, cls)
+            if len(atoms) > 1:
+                out[canon(mod, cls, o)] = {
+                    "ctxs": sorted({b["ctx"] for b, _k, _c in atoms}), "sites": sorted({b["site"] for b, _k, _c in atoms}),
+                    "annotated": any(b.get("ann") or b["ctx"] == "bare" for b, _k, _c in atoms), "member": cls is not None,
+                    # a conditional re-binding that loses against the documented one (the documented tie-break decides)
+                    "conditional_loser": w is not None and any(c and not (b is w[0] and k == w[1]) for b, k, c in atoms),
+                    "winner_site": None if w is None else w[0]["site"]}
+    return out
 INCOMPAT = ["remove", "change_kind", "remove_base", "change_value", "drop_reexport"]
 
 
@@ -795,6 +968,8 @@ def prefer_hidden(rng: random.Random, cands: list, surface: dict, focus=None):  
     when there are candidates that live in a sibling top-level package and are public through pk, take one of those; a set
     of paths - when there are candidates all of whose public paths are among / below those paths (names that only a
     composed ``__all__`` makes public), take one of those."""
+    if focus == "attrs":
+        focus = None
     if focus and focus != "sibling":
         def only_there(c):  # noqa: ANN001, ANN202
             paths = surface.get(canon(*c))
@@ -846,13 +1021,13 @@ def apply_edit(rng: random.Random, old: dict, new: dict, kind: str, surface: dic
         o["params"].append((kwname, "None"))
         return {"edit": kind, "where": canon(m, c, o), "expect": None}
     if kind == "change_private":
-        cands = [(m, c, o) for m, c, o in objs if not surface.get(canon(m, c, o)) and not (c and surface.get(canon(m, None, c)) and not o["name"].startswith("_"))]
-        cands = [(m, c, o) for m, c, o in cands if not surface.get(canon(m, c, o))]
+        cands = [(m, c, o) for m, c, o in objs if not surface.get(canon(m, c, o)) and not (c and surface.get(canon(m, None, c)) and not private_name(o["name"]))]
+        cands = [(m, c, o) for m, c, o in cands if not surface.get(canon(m, c, o)) and o["name"] != "__init__"]
         if not cands:
             return None
         m, c, o = rng.choice(cands)
         if o["kind"] == "attr":
-            o["value"] = str(int(o["value"]) + 100)
+            bump_value(o, c, 100)
         elif o["kind"] == "func":
             o["params"] = [(f"r{rng.randint(10, 99)}", None)] + ([("self", None)] if c else [])
             o["params"].sort(key=lambda p: p[0] != "self")
@@ -877,6 +1052,20 @@ def apply_edit(rng: random.Random, old: dict, new: dict, kind: str, surface: dic
         new["mods"][f"pk.extra{rng.randint(1, 9)}"] = {"objs": [new_obj("thing", "func")], "imports": [], "all": None}
         return {"edit": kind, "where": "pk.extraN", "expect": None}
     # incompatible ---------------------------------------------------------------------------
+    if kind == "change_losing_binding":
+        # the value of an assignment that loses the tie-break (a conditional re-binding of a name that has a value, an
+        # assignment a later one overrides) changes: what is documented stays
+        cands = []
+        for m, c, o in objs:
+            if o["kind"] == "attr" and o.get("binds") is not None:
+                w = winning_atom(o, c)
+                cands += [(m, c, o, b, k) for b, k, _cond in binding_atoms(o, c) if b["ctx"] != "bare" and not (w and b is w[0] and k == w[1])]
+        if not cands:
+            return None
+        m, c, o, b, k = rng.choice(cands)
+        b[k] = str(500 + rng.randint(0, 99))
+        return {"edit": kind, "where": canon(m, c, o), "expect": None}
+    objs = [x for x in objs if x[2]["name"] != "__init__"]  # the carrier of the instance attributes is not edited away
     if kind == "remove":
         m, c, o = prefer_hidden(rng, objs, surface, focus)
         path = canon(m, c, o)
@@ -910,6 +1099,7 @@ def apply_edit(rng: random.Random, old: dict, new: dict, kind: str, surface: dic
         o["members"] = []
         o["bases"] = []
         o["value"] = "5"
+        o.pop("binds", None)
         return {"edit": kind, "where": path, "expect": "Public object points to a different kind of object"}
     if kind == "remove_base":
         cands = [(m, c, o) for m, c, o in objs if o["kind"] == "class" and o["bases"]]
@@ -919,11 +1109,15 @@ def apply_edit(rng: random.Random, old: dict, new: dict, kind: str, surface: dic
         removed = o["bases"].pop()
         return {"edit": kind, "where": canon(m, c, o), "expect": "Base class was removed", "removed_base": removed}
     if kind == "change_value":
-        cands = [(m, c, o) for m, c, o in objs if o["kind"] == "attr"]
+        cands = [(m, c, o) for m, c, o in objs if o["kind"] == "attr" and (o.get("binds") is None or winning_atom(o, c))]
         if not cands:
             return None
-        m, c, o = prefer_hidden(rng, cands, surface, focus)
-        o["value"] = str(int(o["value"]) + 10)
+        if focus == "attrs":
+            multi = [x for x in cands if surface.get(canon(*x)) and len(binding_atoms(x[2], x[1])) > 1]
+            m, c, o = rng.choice(multi) if multi else prefer_hidden(rng, cands, surface, None)
+        else:
+            m, c, o = prefer_hidden(rng, cands, surface, focus)
+        bump_value(o, c, 10)
         return {"edit": kind, "where": canon(m, c, o), "expect": "Attribute value was changed"}
     if kind == "drop_reexport":
         # a module of pk stops re-exporting - one explicit import, or everything it takes from one module by wildcard import
@@ -1070,7 +1264,7 @@ def surface(model: dict, loaded: list[str] | set[str] | None = None) -> dict[str
     desc: dict[str, dict] = {}
     for mod, cls, o in all_objects(model):
         c = canon(mod, cls, o)
-        desc[c] = {"canonical": c, "kind": o["kind"], "value": o["value"] if o["kind"] == "attr" else None,
+        desc[c] = {"canonical": c, "kind": o["kind"], "value": doc_value(o, cls) if o["kind"] == "attr" else None,
                    "bases": list(o["bases"]) if o["kind"] == "class" else None}
     out = {}
     for c, ps in paths.items():
@@ -1089,6 +1283,10 @@ def expected_differences(old_surface: dict, new_surface: dict) -> list[dict]:
     diffs = []
     for p, od in old_surface.items():
         nd = new_surface.get(p)
+        if nd is not None and nd["kind"] == od["kind"] == "func" and nd["canonical"] != od["canonical"]:
+            # the path now leads to another function of that name (an override went away or appeared: __init__ of the
+            # class / of its base): their signatures are not modelled, a report about them is neither demanded nor forbidden
+            diffs.append({"path": p, "canonical": od["canonical"], "new_canonical": nd["canonical"], "kind": "*"})
         if nd is None:
             parent = p.rsplit(".", 1)[0]
             if parent in old_surface and (parent not in new_surface or new_surface[parent]["kind"] != old_surface[parent]["kind"]):
@@ -1132,8 +1330,8 @@ def reference_diffs(case: dict) -> tuple[list[dict], list[dict]]:
     that lives in a package the session did not load is neither demanded nor forbidden). A module-level name that left
     the public surface but is still bound in the new module was un-exported, not removed: the statement does not speak
     about that, so it is allowed but not demanded either."""
-    demanded = expected_differences(case["old_surface"], case["new_surface"])
-    allowed = list(demanded)
+    allowed = expected_differences(case["old_surface"], case["new_surface"])
+    demanded = [d for d in allowed if d["kind"] != "*"]
     if any(d["kind"] == "Public object was removed" for d in demanded):
         bound = module_bindings(case["new"])
         for mod, names in (case.get("bound_new") or {}).items():
@@ -1212,11 +1410,24 @@ def judge(rec, case: dict, rows: list[dict], info: dict) -> tuple | None:  # noq
                 if key == "empty_class":
                     for style in case["boundary"]["bodies"]:
                         rec.add_to_set("empty_class_bodies_seen_in_such_pairs", style)
+        ainfo = (case.get("attr_info") or {}).get(canonical)
+        if hit and ainfo and kind == "Attribute value was changed":
+            rec.count("value_edits_on_attribute_bound_several_times_reported")
+            if ainfo["conditional_loser"]:
+                rec.count("value_edits_where_conditional_rebinding_loses_reported")
+                if "init" in ainfo["sites"]:
+                    rec.count("value_edits_on_instance_attribute_with_conditional_rebinding_reported")
+                    rec.count("such_edits_with_documented_value_bound_" + ("in_init" if ainfo["winner_site"] == "init" else "at_class_level"))
+                if not ainfo["member"]:
+                    rec.count("value_edits_on_module_attribute_with_conditional_rebinding_reported")
+                for ctx in ainfo["ctxs"]:
+                    rec.add_to_set("binding_contexts_in_such_pairs", ctx)
         if not hit:
             return (f"public object {canonical} ({kind}) changed on public path(s) {sorted(d['path'] for d in ds)} but no such breakage is reported",
                     rows, ds)
     for r in rows:
-        ok = any(d["kind"] == r["kind"] and (r["path"] == d["path"] or r["canonical"] == d["canonical"] or r["path"] == d["canonical"])
+        ok = any(d["kind"] in (r["kind"], "*")
+                 and (r["path"] == d["path"] or r["canonical"] in (d["canonical"], d.get("new_canonical")) or r["path"] == d["canonical"])
                  for d in allowed)
         if not ok:
             fid = None
@@ -1228,6 +1439,8 @@ def judge(rec, case: dict, rows: list[dict], info: dict) -> tuple | None:  # noq
                     fid = "C11-empty-all-is-itself-public"
             return (f"breakage '{r['kind']}' on {r['path']} does not correspond to any difference between the public surfaces "
                     "(private / imported-not-exported object, or nothing changed there)", rows, allowed, fid)
+    if not rows and any(e["edit"] == "change_losing_binding" for e in expectations):
+        rec.count("pairs_with_losing_binding_edit_silent")
     for e in expectations:
         if e["expect"] and not any(d["canonical"].startswith(e["where"]) or e["where"].startswith(d["canonical"])
                                    or d["path"].startswith(e.get("prefix", "\0") + ".") for d in allowed):
@@ -1308,7 +1521,7 @@ def run_case(rec, old_model: dict, script: list[str], rng: random.Random, with_c
     case = {"old": old_files, "new": new_files, "expectations": expectations, "session": session, "loaded": loaded,
             "old_surface": surface(old_model, loaded), "new_surface": surface(new_model, loaded),
             "old_full": surface(old_model), "new_full": surface(new_model), "wild_paths": wildcard_only_paths(old_model, set(loaded)),
-            "composed_paths": composed, "boundary": boundary_shapes(old_model, set(loaded)),
+            "composed_paths": composed, "boundary": boundary_shapes(old_model, set(loaded)), "attr_info": attribute_info(old_model),
             "bound_new": {mod: sorted({o["name"] for o in m["objs"]} | {i[2] or i[1] for i in imports_of(new_model, mod)})
                           for mod, m in new_model["mods"].items()}}
     judge_case(rec, case, with_cli)
@@ -1343,6 +1556,8 @@ def judge_case(rec, case: dict, with_cli: bool) -> None:  # noqa: ANN001, C901
                     rec.count("cli_cases_with_composed_all")
                 if (case.get("boundary") or {}).get("empty_class"):
                     rec.count("cli_cases_with_empty_body_class")
+                if any(a["conditional_loser"] for a in (case.get("attr_info") or {}).values()):
+                    rec.count("cli_cases_with_conditionally_rebound_attribute")
                 # against the reference model: non-zero when a difference is demanded, zero when none is even allowed
                 wants = {1 if demanded else 0, 1 if allowed else 0}
                 cres = None
@@ -1371,20 +1586,21 @@ def judge_case(rec, case: dict, with_cli: bool) -> None:  # noqa: ANN001, C901
 
 def shards(tier: str, seed: int) -> list[dict]:
     n = 110 if tier == "quick" else 900
-    return [{"count": n, "cli": 5 if tier == "quick" else 15} for _ in range(16)]
+    return [{"count": n, "cli": 6 if tier == "quick" else 18} for _ in range(16)]
 
 
 def run_shard(spec: dict, rec) -> None:  # noqa: ANN001
     rng = random.Random(spec["seed"])
     for i in range(spec["count"]):
         with_cli = i < spec["cli"]
-        # of five CLI cases, two have the private sibling package linked by an exported re-export (what makes `griffe check`
+        # of six CLI cases, two have the private sibling package linked by an exported re-export (what makes `griffe check`
         # pull it in) and edit an object pk only has from there; one has composed __all__ lists and edits an object that
         # only such a list makes public; one has containers of boundary shape (empty class bodies, ...) and edits an object
         # that is public only through one of them
-        force = (["sibling", "sibling", "composed", "boundary", None][i % 5]) if with_cli else None
+        # ... one has attributes bound several times and changes a documented value
+        force = (["sibling", "sibling", "composed", "boundary", "attrs", None][i % 6]) if with_cli else None
         model = gen_model(rng, siblings=True if force == "sibling" else None, compose=True if force == "composed" else None,
-                          shapes=True if force == "boundary" else None)
+                          shapes=True if force == "boundary" else None, attrs=True if force == "attrs" else None)
         r = rng.random()
         if r < 0.12 and not force:
             script: list[str] = []
@@ -1395,9 +1611,9 @@ def run_shard(spec: dict, rec) -> None:  # noqa: ANN001
             script = script[-rng.randint(1, 4):]
             # one incompatible edit per script keeps expectations independent of each other
             inc = [k for k in script if k in INCOMPAT][:1]
-            script = [k for k in script if k in COMPAT] + inc
+            script = [k for k in script if k in COMPAT] + (["change_value"] if force == "attrs" else inc)
         r = rng.random()
-        run_case(rec, model, script, rng, with_cli=with_cli, focus=force or ("sibling" if r < 0.2 else "composed" if r < 0.45 else "boundary" if r < 0.7 else None))
+        run_case(rec, model, script, rng, with_cli=with_cli, focus=force or ("sibling" if r < 0.2 else "composed" if r < 0.4 else "boundary" if r < 0.6 else "attrs" if r < 0.8 else None))
 
 
 def legacy_case(inp: dict) -> dict:
